@@ -18,7 +18,7 @@ func init() {
 			"and within 0.9*FailedUpdateTTL of a failed build no builder invocation for the key, errors served are the cached one; (b) sequential scripts of 6 Gets with the failing invocation at every position x FailedUpdateTTL {default,1h,-1} " +
 			"x entry state, judged against a small executable model (exact build count and result of every Get); (c) failure-cache entry expiry bracket [tb+0.95T, ta+1.05T] and rebuild after Errors.ExpireAll; " +
 			"distinct_nontrivial = distinct (config, schedule signature) of family-(a) runs with >=2 overlapping Gets on one key plus distinct family-(b) cells",
-		Required:    []string{"a.runs", "a.success_then_quiet.checked", "a.bursts.one_build", "a.suppression.checked", "b.sequences", "b.reexpire_sequences", "b.past_update_ttl_sequences", "b.default_backend_sequences", "b.gets", "c.expiry.checked", "c.rebuild_after_elapse.checked", "api.Failover", "api.FailoverOf"},
+		Required:    []string{"a.runs", "a.success_then_quiet.checked", "a.bursts.one_build", "a.suppression.checked", "b.sequences", "b.reexpire_sequences", "b.past_update_ttl_sequences", "b.default_backend_sequences", "b.gets_with_done_context", "b.gets", "c.expiry.checked", "c.rebuild_after_elapse.checked", "api.Failover", "api.FailoverOf"},
 		Assumptions: []string{"suppression window is judged only for events whose monotonic timestamps lie within 0.9*FailedUpdateTTL of the failure (sound under load)", "without SyncRead redundant sequential builds are documented behaviour and only counted"},
 		Timeout:     func(string) time.Duration { return 45 * time.Minute },
 	})
@@ -328,8 +328,18 @@ func c05Sequential(b *Batch, idx int, rng *rand.Rand) {
 			}
 		}
 	}
+	// the caller's context may be done already (cancelled request still being served) or carry a deadline: the model
+	// does not depend on it - a failure is a failure and is remembered
+	ctxMode := rng.Intn(3)
 	for g := 0; g < 6; g++ {
-		r.doGet(0, getSpec{Key: 0, SkipRead: g == skipAt})
+		sp := getSpec{Key: 0, SkipRead: g == skipAt}
+		if ctxMode == 1 && rng.Intn(2) == 0 {
+			sp.PreCancel = true
+			b.R.Count("b.gets_with_done_context", 1)
+		} else if ctxMode == 2 {
+			sp.Deadline = true
+		}
+		r.doGet(0, sp)
 	}
 	b.R.Eval()
 	b.R.Count("b.sequences", 1)
